@@ -1581,7 +1581,7 @@ def struct_fields(fdecl, pname, sigs={}):
             if isinstance(c, dict):
                 walk(c)
     walk(fdecl)
-    return seen
+    return sorted(seen)      # by field name: the order in which a function happens to read the fields is not part of its meaning
 
 def local_elem(fn, n):
     """`arr[k]` with `arr` a local array of the function and `k` a literal -> the name of the element variable"""
